@@ -1,6 +1,8 @@
 package main
 
 import (
+	"sync/atomic"
+	"time"
 	"crypto/sha1"
 	"encoding/binary"
 	"fmt"
@@ -360,7 +362,7 @@ func Reload(c *TrieCase, st *trie.SlimTrie) (st2 *trie.SlimTrie, ec string, pan 
 	if err != nil {
 		return nil, errClass(err), ""
 	}
-	err = st2.Unmarshal(b)
+	watched(func() { err = st2.Unmarshal(b) })
 	if err != nil {
 		return nil, errClass(err), ""
 	}
@@ -393,7 +395,7 @@ func observe(c *TrieCase, st *trie.SlimTrie, q string) (o lookupObs) {
 				o.Pan += name + ": " + fmt.Sprint(r)
 			}
 		}()
-		f()
+		watched(f)
 	}
 	call("GetID", func() { o.ID = int(st.GetID(q)) })
 	call("Get", func() {
@@ -463,4 +465,39 @@ func ObsEv(c *TrieCase, st *trie.SlimTrie, kind string, qs []string, fp []int) E
 		e["fp"] = fp
 	}
 	return e
+}
+
+
+// ---- calls that do not return ------------------------------------------------------
+// A call into the library that does not come back (a lookup looping on a half-loaded
+// index, say) is an OBSERVATION - the properties demand termination - not a reason to lose
+// the whole run to the driver's timeout.  watched runs f in its own goroutine and stops
+// waiting after hangLimit; it then panics in the CALLER's goroutine with a text starting
+// with "HANG", which the caller's recover records like any other panic.  The abandoned
+// goroutine keeps spinning until the process ends; after three hangs no further call is
+// started (they report "HANG: skipped").
+const hangLimit = 25 * time.Second
+
+var hangCount int32
+
+func watched(f func()) {
+	if atomic.LoadInt32(&hangCount) >= 3 {
+		panic("HANG: skipped (the library stopped returning from calls earlier in this run)")
+	}
+	done := make(chan interface{}, 1)
+	go func() {
+		defer func() { done <- recover() }()
+		f()
+	}()
+	t := time.NewTimer(hangLimit)
+	select {
+	case r := <-done:
+		t.Stop()
+		if r != nil {
+			panic(r)
+		}
+	case <-t.C:
+		atomic.AddInt32(&hangCount, 1)
+		panic(fmt.Sprintf("HANG: the call did not return within %v", hangLimit))
+	}
 }
